@@ -9,7 +9,7 @@ from .common import Oracle, Suite, errname, hx, merge
 from .formats_common import cps
 
 GEN_UNITS = ["Verify", "Handlers", "ShaCrypt", "B64", "PyUnicode", "FormatParsers", "LibpassAll", "ContextPolicy"]
-LEAN_TARGETS = ["PasslibVerif.Props.C08"]
+LEAN_TARGETS = ["PasslibVerif.Props.C08", "PasslibVerif.Props.C08Crypt"]
 ASSUMPTIONS = [
     "that a string whose settings (salt, cost, ident) were altered yields a different checksum is a property of the digest primitives, explored on the real code",
     "which strings parse to the same value (hex case, padding bits, …) is proved per format under C07 / C12; this check uses the real parsers to classify mutants",
